@@ -189,6 +189,16 @@ class Algebra:
         for name, operator_dict in self.registry.items():
             setattr(self, name, operator_dict)
 
+    def __eq__(self, other):
+        # The generated dataclass equality cannot compare the signature (a numpy array) and would
+        # consider e.g. signature=[1, -1] and signature=[-1, 1] to be the same algebra.
+        if not isinstance(other, Algebra):
+            return NotImplemented
+        return (
+            (self.p, self.q, self.r, self.basis, self.cse, self.graded, tuple(self.signature))
+            == (other.p, other.q, other.r, other.basis, other.cse, other.graded, tuple(other.signature))
+        )
+
     @classmethod
     def fromname(cls, name: str, **kwargs):
         """
